@@ -225,6 +225,22 @@ def variants():
     ]
 
 
+def combos():
+    """settings with several applied steps that carry options (containers whose iteration order could leak)"""
+    o2 = {"correct_tip_offset": {"method": "fit_constant_line"},
+          "correct_force_slope": {"region": "all", "strategy": "drift"}}
+    o2r = dict(reversed(list(o2.items())))
+    o3 = {"correct_force_slope": {"strategy": "shift", "region": "approach"},
+          "correct_tip_offset": {"method": "frechet_direct_path"}, "smooth_height": {}}
+    p3 = ["compute_tip_position", "correct_tip_offset", "correct_force_slope"]
+    p5 = ["compute_tip_position", "correct_tip_offset", "correct_force_slope", "correct_force_offset", "smooth_height"]
+    return [{"preprocessing": p3, "preprocessing_options": o2},
+            {"preprocessing": p3, "preprocessing_options": o2r},
+            {"preprocessing": p5, "preprocessing_options": o3},
+            {"preprocessing": p5, "preprocessing_options": dict(sorted(o3.items()))},
+            {"preprocessing": p3, "preprocessing_options": o2, "method_kws": {"ftol": 1e-9, "xtol": 1e-8, "gtol": 1e-9}}]
+
+
 def param_history_variants():
     """equal effective initial parameters with different object history must hash equal"""
     from nanite import model
@@ -359,6 +375,8 @@ for name, k1, k2 in c12.variants():
 for key, vals in c12.domains().items():
     for v in vals:
         out.append(c12.fitter_hash(idnt, {key: v})[0])
+for kw in c12.combos():
+    out.append(c12.fitter_hash(idnt, kw)[0])
 print(json.dumps(out))
 """
 
@@ -366,7 +384,7 @@ print(json.dumps(out))
 def hashseed_check(ctx, nproc):
     here = os.path.dirname(os.path.dirname(os.path.abspath(__file__)))
     outs = []
-    for seed in [0, 1, 12345, 4242][:nproc]:
+    for seed in [0, 1, 2, 3, 12345, 4242][:nproc]:
         env = dict(os.environ, PYTHONHASHSEED=str(seed))
         p = subprocess.run([sys.executable, "-c", SUBPROC % here], capture_output=True, text=True,
                            env=env, timeout=600)
@@ -376,11 +394,22 @@ def hashseed_check(ctx, nproc):
         outs.append(json.loads(p.stdout.strip().splitlines()[-1]))
         ctx.case({"oracle": "hashseed", "PYTHONHASHSEED": seed}, nontrivial=f"hs:{seed}",
                  bucket="oracle=hashseed-process")
+    ncomb = len(combos())
+    for o in outs:
+        c_ = o[-ncomb:]
+        if c_[0] != c_[1] or c_[2] != c_[3]:
+            ctx.violation("hash-depends-on-option-insertion-order", "equal preprocessing options inserted in a "
+                          "different order hash differently", {"input": {"settings": [repr(k) for k in combos()[:4]]},
+                                                               "observed": c_[:4]})
+            return
     for o in outs[1:]:
         if o != outs[0]:
             idx = [i for i, (a, b_) in enumerate(zip(o, outs[0])) if a != b_]
+            nset = len(outs[0]) - ncomb
+            what = [repr(combos()[i - nset]) if i >= nset else f"single-key case #{i}" for i in idx[:4]]
             ctx.violation("hashseed", "hash differs between interpreter runs with different "
-                          "PYTHONHASHSEED", {"input": {"indices": idx[:10]}})
+                          f"PYTHONHASHSEED for the settings {what}",
+                          {"input": {"indices": idx[:10], "settings": what, "PYTHONHASHSEED": "0 vs 1, 2, 3, ..."}})
             return
 
 
@@ -431,7 +460,7 @@ def run(ctx):
             if m != pre:
                 ctx.disagree({"kwargs": desc}, pre[:400], m[:400], "md5 pre-image differs")
     oracle(ctx, curves_[0])
-    hashseed_check(ctx, 2 if ctx.tier == "quick" else 4)
+    hashseed_check(ctx, 4 if ctx.tier == "quick" else 6)
 
 
 def replay(ctx, path):
